@@ -426,7 +426,7 @@ inductive Event
   | tick (n : Int)
   | noteSeen (t : Tid)
   | noteNotify (t : Tid)
-deriving Repr
+deriving DecidableEq, Repr
 
 def Event.tid : Event → Option Tid
   | .call t _ | .ret t _ _ | .ld t _ _ _ | .st t _ _ _ _ | .cas t _ _ _ _ _ _
